@@ -1,5 +1,6 @@
 """C10 - Event processing terminates and a faulty flow fails alone (isolation clause only)."""
 import ast
+import re
 
 from ..pycalls import CallGraph
 from ..pycfg import CFG, contained, walk_no_nested, handler_reraises, broad_handler
@@ -33,9 +34,15 @@ def run(ctx):
     ctx.decided = ["a: every call edge from the uncontained event loop into an evaluator-reaching function is inside the per-flow try, or is a triaged table entry",
                    "a': the per-flow handler emits ColangError, marks only this flow aborted and does not re-raise",
                    "b: process_events wraps every run_to_completion call in try/except Exception that produces a ColangError event; the handler cannot raise"]
-    ctx.not_decided = ["termination within a bound depending on program size (no ranking argument in reach of this family)"]
+    ctx.decided += ["c: the two guards that keep an activated flow from restarting forever inside one event (instance ends before it ever waited): finish case and failure case",
+                    "d: the max_events cap of process_events counts cumulatively over all batches of one call",
+                    "e: library flows that handle ColangError escape the error text they interpolate (a handler that fails on its own error re-triggers itself)"]
+    ctx.not_decided = ["termination within a bound depending on program size in general (no ranking argument in reach of this family); only the named guards are decided"]
     a_containment(ctx)
     b_api(ctx)
+    c_restart_guards(ctx)
+    d_event_cap(ctx)
+    e_error_handler_flows(ctx)
 
 
 def leaf_sites(fn):
@@ -128,7 +135,28 @@ def _handler_fails_only_flow(fn, tr, h):
     inloop = any(isinstance(p, (ast.For, ast.While)) for p in _anc(tr, fn))
     if not inloop:
         return False, "the try is not inside the per-head loop (one failing head would end the processing of the others)"
-    # the handler itself must be total: element lookup guarded by hasattr etc. (only attribute reads / str / type)
+    # the handler itself must be total: a two-level attribute read `x.a.b` needs a truthiness guard on `x.a`
+    for st in h.body:
+        for x in walk_no_nested(st):
+            if isinstance(x, ast.Attribute) and isinstance(x.value, ast.Attribute) and isinstance(x.ctx, ast.Load):
+                root = x.value
+                while isinstance(root, ast.Attribute):
+                    root = root.value
+                if isinstance(root, ast.Name) and root.id in ("log", "self", "FlowStatus", "FlowHeadStatus", "InternalEvents"):
+                    continue
+                inner = src(x.value)
+                guarded = False
+                for p_ in _anc(x, h):
+                    if isinstance(p_, (ast.If, ast.IfExp)):
+                        conj = p_.test.values if isinstance(p_.test, ast.BoolOp) and isinstance(p_.test.op, ast.And) else [p_.test]
+                        if any(src(c) == inner or src(c) == "%s is not None" % inner for c in conj):
+                            guarded = True
+                if not guarded:
+                    return False, "the handler reads `%s` without testing `%s` for None: elements generated for if/when bodies have no source, so the handler itself raises and the error escapes run_to_completion" % (src(x), inner)
+            if isinstance(x, ast.Call):
+                f = src(x.func)
+                if not (f.startswith("log.") or f in ("Event", "str", "type", "hasattr", "_push_internal_event", "getattr", "repr", "isinstance")):
+                    return False, "the handler calls `%s(...)`, which may raise inside the handler" % f
     return True, "handler logs, pushes a ColangError event, sets `%s` so that only this flow is aborted after the try, and the loop continues with the next head" % flag
 
 
@@ -174,3 +202,73 @@ def b_api(ctx):
                 if not loop:
                     ok, why = False, "the ColangError event is not processed (no enclosing `while %s is not None`)" % v
         ctx.check("C10.b.api", RT, qualname(fn), first_line(c), ok, why, line=c.lineno)
+
+
+def c_restart_guards(ctx):
+    """An activated flow is started again whenever its instance ends.  If an instance ends before it ever waited,
+    the restart happens inside the same run_to_completion call, again and again: both ways of ending need a guard."""
+    from ..coflow import evaluate, truth
+    t = ctx.tree.ast(SM)
+    fn = find_function(t, "_advance_head_front")
+    if fn is None:
+        raise AnalysisError("_advance_head_front not found", anchor=SM + "::_advance_head_front")
+    for flag, what, kind in (("flow_finished", "finishes", "finish"), ("flow_aborted", "fails", "failure")):
+        guards = [n for n in ast.walk(fn) if isinstance(n, ast.If) and flag in [x.id for x in ast.walk(n.test) if isinstance(x, ast.Name)] and ".activated" in src(n.test)]
+        ok, msg = False, ("no guard for an activated instance that %s before it ever waited: it is restarted at once, %s again, ... and run_to_completion never returns" % (what, what))
+        for g in guards:
+            starting = any(isinstance(p_, ast.If) and "FlowStatus.STARTING" in src(p_.test) and "==" in src(p_.test) for p_ in _anc(g, fn))
+            resets = any(isinstance(s_, ast.Assign) and src(s_.targets[0]) == flag and src(s_.value) == "False" for s_ in g.body)
+            # the guard must hold for EVERY activated instance (no extra condition that excludes some)
+            names = {x.id for x in ast.walk(g.test) if isinstance(x, ast.Name)}
+            class _A:  # abstract flow_state with activated = 1
+                pass
+            from ..coflow import AObj
+            env = {flag: True}
+            for nme in names - {flag}:
+                env[nme] = AObj(activated=1)
+            v = truth(evaluate(g.test, env))
+            if starting and resets and v is True:
+                ok, msg = True, "an activated instance that %s in the very step it was started (status STARTING) is not ended/restarted (`%s = False`); the guard holds for every activated instance" % (what, flag)
+            elif starting and resets:
+                msg = "the %s guard `%s` does not hold for every activated instance (it evaluates to %s for flow_state.activated = 1): the excluded instances restart forever" % (kind, first_line(g.test, 80), v)
+        ctx.check("C10.c.restart-guard", SM, "_advance_head_front", "immediate %s of an activated flow" % kind, ok, msg, line=(guards[0].lineno if guards else fn.lineno))
+
+
+def d_event_cap(ctx):
+    t = ctx.tree.ast(RT)
+    fn = find_function(t, "process_events")
+    caps = [n for n in walk_no_nested(fn) if isinstance(n, ast.Compare) and "max_events" in src(n) and isinstance(n.left, ast.Name)]
+    ctx.floor("C10.d.event-cap", RT, "comparison with max_events in process_events", len(caps), 1)
+    for c in caps:
+        v = c.left.id
+        loops = [p_ for p_ in _anc(c, fn) if isinstance(p_, (ast.While, ast.For))]
+        outer = loops[-1] if loops else None
+        inits = [a for a in walk_no_nested(fn) if isinstance(a, ast.Assign) and any(isinstance(x, ast.Name) and x.id == v for x in a.targets)]
+        rebinds = [f for f in walk_no_nested(fn) if isinstance(f, ast.For) and v in [x.id for x in ast.walk(f.target) if isinstance(x, ast.Name)]]
+        incs = [a for a in walk_no_nested(fn) if isinstance(a, ast.AugAssign) and isinstance(a.target, ast.Name) and a.target.id == v]
+        ok = bool(inits) and outer is not None and all(a.lineno < outer.lineno and not any(a in list(ast.walk(l)) for l in loops) for a in inits) and not rebinds \
+            and bool(incs) and all(isinstance(a.op, ast.Add) for a in incs)
+        ctx.check("C10.d.event-cap", RT, qualname(fn), src(c), ok,
+                  "`%s` is initialised once before the processing loop and only incremented: the cap counts all events of the call" % v if ok else
+                  "`%s` is (re)bound inside the processing loop: the cap becomes per batch, so flows that answer each other's events keep process_events running forever" % v, line=c.lineno)
+
+
+def e_error_handler_flows(ctx):
+    from .. import rails
+    n = 0
+    for rel in ctx.tree.glob("nemoguardrails/colang/v2_x/library", (".co",)):
+        for f in rails.parse_co(ctx.tree, rel):
+            refs = [s_.ref for s_ in f.walk() if s_.kind == "match" and (s_.expr or "").startswith("ColangError") and s_.ref]
+            for r in refs:
+                for s_ in f.walk():
+                    txt = s_.text
+                    for m in re.finditer(r"\{([^{}]*\$%s\.(error|type)[^{}]*)\}" % re.escape(r), txt):
+                        if m.group(2) != "error":
+                            continue
+                        n += 1
+                        ok = re.match(r"^\s*escape\(\s*\$%s\.error\s*\)\s*$" % re.escape(r), m.group(1)) is not None
+                        ctx.check("C10.e.error-handler", rel, f.name, s_.text[:120], ok,
+                                  "the ColangError handler interpolates the error text through escape(...)" if ok else
+                                  "the ColangError handler interpolates `%s` unescaped: an error text containing quotes breaks the handler's own expression, the new error matches the restarted handler, which fails again - forever" % m.group(1),
+                                  line=s_.line)
+    ctx.floor("C10.e.error-handler", "nemoguardrails/colang/v2_x/library", "interpolations of the error text in ColangError handler flows", n, 1)
